@@ -108,22 +108,4 @@ mod verif_kani_supportedcone {
         let (merged, _) = check_on([any_cone(), any_cone()]);
         kani::cover!(merged);
     }
-    #[kani::proof]
-    #[kani::unwind(4)]
-    fn new_collapsed_matches_spec_len3() {
-        let (merged, skipped) = check_on([any_cone(), any_cone(), any_cone()]);
-        kani::cover!(merged && skipped);
-    }
-    #[kani::proof]
-    #[kani::unwind(5)]
-    fn new_collapsed_matches_spec_len4() {
-        let (merged, skipped) = check_on([any_cone(), any_cone(), any_cone(), any_cone()]);
-        kani::cover!(merged && skipped);
-    }
-    #[kani::proof]
-    #[kani::unwind(4)]
-    fn new_collapsed_dev4() { check_on([cone_of(0), SecondOrderConeT(1), cone_of(0)]); }
-    #[kani::proof]
-    #[kani::unwind(4)]
-    fn new_collapsed_dev5() { check_on([cone_of(0), ZeroConeT(0), cone_of(0)]); }
 }
